@@ -568,7 +568,7 @@ def minimize_lbfgsb(
                 mats = LBFGSB_MATRICES(n)
         else:
             # x update
-            x += steplength * d
+            x = np.clip(x + steplength * d, lb, ub)
 
             # new evaluation -> normally, the function has been updated in
             # the linesearch step
